@@ -24,6 +24,7 @@ META = {
                      "NumPy scalar division by zero yields inf/nan without raising"],
     "assumptions": ["the base tracker's update/get are decided by C10"],
 }
+META["explanation"] += ' Also COPY (a copied multi-value tracker owns its per-key trackers and key set).'
 MIN_INSTANCES = {"TYPESTATE": 4, "FORMULA": 3, "ZERODIV": 1, "NOMUT": 1, "COPY": 1}
 CLS = "MultiValueTracker"
 REMOVERS = {"pop", "popitem", "remove", "discard", "clear", "difference_update", "intersection_update",
